@@ -50,7 +50,7 @@ func ruleR29() *Rule {
 	return &Rule{
 		ID:    "R29",
 		Title: "ELEMENT-DEPENDENCE: every component encoded for a location is computed from that very location",
-		Props: []string{"C06", "C01"},
+		Props: []string{"C06", "C01", "C02"},
 		Floor: floorFor("R29"),
 		Run: func(c *RuleCtx) {
 			p := c.p
